@@ -12,6 +12,20 @@ Driver commands of the `hints` group (C05, C04).  See ENGINE_PROTOCOL.md for the
 * `(req-exec <schema> <data> <query text hex> <ir> <args>)` → the rows, exactly like `exec` (the
   implementation runs the query under the wrapper adapter that records the required-properties check
   of every `resolve_property` call; the oracle lives in the harness).
+* `(hints <schema> <query text hex> <ir> <args>)` → `(hints (v <vid> (static (<prop> <cand>)…)
+  (dyn <prop>…) (mand <eid>…))…)` in Vid order: what the root `ResolveInfo` (not completed) and the
+  `NeighborInfo`s reached from it through `edges_with_name(..).destination()` report; candidates in
+  the syntax of `Driver/Cand.lean`; `(v <vid> panic)` when a hint method panics.
+* `(points <schema> <data> <query text hex> <ir> <args> (eids <eid>…))` → `(points (start <vid> …)
+  (e <eid> <vid> …)…)`: the same report for the hint object of each resolution point
+  (`ResolveInfo` of the starting vertices; `ResolveEdgeInfo::destination()` of each listed edge).
+* `(tag-cand <ctx|count> <op> <nonexistent | (some <value>)> <initial candidate>)` → the candidate
+  `DynamicallyResolvedValue::resolve` computes for one context (`candidateOfTag`).
+* `(prune-exec <schema> <data> <query text hex> <ir> <args>)` → the rows of the interpreter under
+  the model's `pruneAdapter` (the implementation answers the rows of the plain run).
+* `(static-cand <schema> <query text hex> <ir> <args> <vid> <prop>)` → the static candidate the hint
+  object of the resolution point of `<vid>` reports for `<prop>` (`-`: none);
+  `(mandatory <schema> <query text hex> <ir> <args> <vid>)` → `(mand <edge name>…)`.
 -/
 namespace TF.Driver
 open TF TF.Engine
@@ -26,6 +40,86 @@ def renderRequired (ir : IRQuery) : String :=
   "(req" ++ String.join ((sortNats (allVids ir)).map fun vid =>
     s!" ({vid}" ++ String.join ((requiredProps ir vid).map fun p => " " ++ p) ++ ")") ++ ")"
 
+def insertName (n : Name) : List Name → List Name
+  | [] => [n]
+  | x :: xs => if n ≤ x then n :: x :: xs else x :: insertName n xs
+
+def sortNames (l : List Name) : List Name := l.foldr insertName []
+
+/-- `(static …) (dyn …) (mand …)` of the hint object `i` whose vertex `v` lives in `comp` -/
+def infoReport (args : List (Name × Value)) (comp : Component) (v : IRVertex) (i : VInfo) : String :=
+  let props := sortNames (filterSubjects v)
+  let body : R String := do
+    let st ← mapR (fun p => (staticallyRequired args i v p).map fun c => (p, c)) props
+    let dy ← mapR (fun p => (dynamicallyRequired args i v p).map fun c => (p, c.isSome)) props
+    let es ← mandatoryEdges args comp i
+    let stS := String.join (st.filterMap fun (p, c) => c.map fun c => s!" ({p} {renderCandidate c})")
+    let dyS := String.join (dy.filterMap fun (p, b) => if b then some (" " ++ p) else none)
+    let mdS := String.join ((sortNats (es.map (·.eid))).map fun e => s!" {e}")
+    pure s!"(static{stS}) (dyn{dyS}) (mand{mdS})"
+  match body with
+  | .ok s => s
+  | _ => "panic"
+
+/-- the component an `EdgeInfo`'s destination lives in -/
+def compOfEdge (comp : Component) (e : EInfo) : Component :=
+  match comp.folds.find? (·.eid == e.eid) with
+  | some f => f.component
+  | none => comp
+
+/-- all hint objects reachable from `i` by `edges_with_name(..).destination()` -/
+def walkInfos (args : List (Name × Value)) : Nat → Component → VInfo → List (Vid × String)
+  | 0, _, _ => []
+  | fuel + 1, comp, i =>
+    let here := match comp.vertex? i.vid with
+      | some v => [(i.vid, infoReport args comp v i)]
+      | none => [(i.vid, "panic")]
+    let es := (outgoingNames comp i.vid).flatMap fun name =>
+      match edgesWithName args comp i name with
+      | .ok es => es
+      | _ => []
+    here ++ es.flatMap fun e => walkInfos args fuel (compOfEdge comp e) e.destination
+
+def insertPair (p : Vid × String) : List (Vid × String) → List (Vid × String)
+  | [] => [p]
+  | x :: xs => if p.1 ≤ x.1 then p :: x :: xs else x :: insertPair p xs
+
+def renderHints (ir : IRQuery) (args : List (Name × Value)) : String :=
+  let l := (walkInfos args 64 ir.rootComponent (VInfo.resolve ir.rootComponent.root false)).foldr insertPair []
+  "(hints" ++ String.join (l.map fun (vid, r) => s!" (v {vid} {r})") ++ ")"
+
+/-- the hint object of the resolution point of Eid `eid`, with its vertex and component -/
+def directPoint (ir : IRQuery) (eid : Eid) : Option (VInfo × Component × IRVertex) := do
+  let i ← destinationOf ir eid
+  let (comp, v) ← locate ir i.vid
+  pure (i, comp, v)
+
+def renderPoints (ir : IRQuery) (args : List (Name × Value)) (eids : List Eid) : String :=
+  let root := ir.rootComponent.root
+  let start := match ir.rootComponent.vertex? root with
+    | some v => s!" (start {root} {infoReport args ir.rootComponent v (VInfo.resolve root false)})"
+    | none => ""
+  "(points" ++ start ++ String.join (eids.map fun e =>
+    match directPoint ir e with
+    | some (i, comp, v) => s!" (e {e} {i.vid} {infoReport args comp v i})"
+    | none => s!" (e {e} -)") ++ ")"
+
+def parseBareOp : String → Option Filter.BinOp
+  | "eq" => some .equals
+  | "neq" => some .notEquals
+  | "lt" => some .lessThan
+  | "le" => some .lessThanOrEqual
+  | "gt" => some .greaterThan
+  | "ge" => some .greaterThanOrEqual
+  | "one_of" => some .oneOf
+  | _ => none
+
+/-- the hint object of the resolution point that produces the vertices of `vid` -/
+def pointOfVid (ir : IRQuery) (vid : Vid) : Option (VInfo × Component × IRVertex) :=
+  if vid == ir.rootComponent.root then
+    (ir.rootComponent.vertex? vid).map fun v => (VInfo.resolve vid false, ir.rootComponent, v)
+  else directPoint ir (vid - 1)
+
 def handleHints : Handler
   | "required", [_schema, _text, ir, _args] => do
     let q ← parseIR ir
@@ -34,6 +128,54 @@ def handleHints : Handler
     let q ← parseIR ir
     pure (renderRequired q)
   | "req-exec", [schema, data, _text, ir, args] => execLike schema data ir args
+  | "hints", [_schema, _text, ir, args] => do
+    let q ← parseIR ir
+    let a ← parseArgs args
+    pure (renderHints q a)
+  | "points", [_schema, _data, _text, ir, args, .list (.atom "eids" :: eids)] => do
+    let q ← parseIR ir
+    let a ← parseArgs args
+    let es ← listMapM atomNat? eids
+    pure (renderPoints q a es)
+  | "tag-cand", [.atom path, .atom op, tagged, initial] => do
+    let o ← parseBareOp op
+    let ni ← if path == "ctx" then some true else if path == "count" then some false else none
+    let t ← match tagged with
+      | .atom "nonexistent" => some Tagged.nonexistent
+      | .list [.atom "some", v] => (Sexp.toValue v).map Tagged.some
+      | _ => none
+    match ← toCandidate initial with
+    | .panic => pure "panic"
+    | .ok init =>
+      match candidateOfTag ni o t init with
+      | .ok c => pure (renderCandidate c)
+      | _ => pure "panic"
+  | "prune-exec", [schema, data, _text, ir, args] => do
+    let d ← parseData schema data
+    let q ← parseIR ir
+    let a ← parseArgs args
+    match validateArgs q.variables a with
+    | .ok none => pure (renderR (interpret { Env.ofData d a with adapter := pruneAdapter q a d } q))
+    | .ok (some errs) => pure ("(err args " ++ " ".intercalate errs ++ ")")
+    | .panic _ => pure "panic"
+    | .fuel => pure "out-of-fuel"
+  | "static-cand", [_schema, _text, ir, args, vid, .atom prop] => do
+    let q ← parseIR ir
+    let a ← parseArgs args
+    let vid ← atomNat? vid
+    let (i, _, v) ← pointOfVid q vid
+    match staticallyRequired a i v prop with
+    | .ok (some c) => pure (renderCandidate c)
+    | .ok none => pure "-"
+    | _ => pure "panic"
+  | "mandatory", [_schema, _text, ir, args, vid] => do
+    let q ← parseIR ir
+    let a ← parseArgs args
+    let vid ← atomNat? vid
+    let (i, comp, _) ← pointOfVid q vid
+    match mandatoryEdges a comp i with
+    | .ok es => pure ("(mand" ++ String.join (es.map fun e => " " ++ e.name) ++ ")")
+    | _ => pure "panic"
   | _, _ => none
 
 end TF.Driver
